@@ -217,8 +217,6 @@ func (m *MClaims) BuildLiteral() (psatoken.IClaims, bool) {
 	if m.Prof == P1 {
 		c := &psatoken.P1Claims{
 			Profile:                clonePtr(m.Profile),
-			ClientID:               clonePtr(m.ClientID),
-			SecurityLifeCycle:      clonePtr(m.Lifecycle),
 			ImplID:                 cloneBytesPtr(m.ImplID),
 			BootSeed:               cloneBytesPtr(m.BootSeed),
 			CertificationReference: clonePtr(m.CertRef),
@@ -227,6 +225,8 @@ func (m *MClaims) BuildLiteral() (psatoken.IClaims, bool) {
 			VSI:                    clonePtr(m.VSI),
 			CanonicalProfile:       P1Name,
 		}
+		setIntField(c, "ClientID", m.ClientID != nil, int64(deref32(m.ClientID)))
+		setIntField(c, "SecurityLifeCycle", m.Lifecycle != nil, int64(deref16(m.Lifecycle)))
 		if m.ZeroCanon {
 			c.CanonicalProfile = ""
 		}
@@ -243,8 +243,6 @@ func (m *MClaims) BuildLiteral() (psatoken.IClaims, bool) {
 		return c, true
 	}
 	c := &psatoken.P2Claims{
-		ClientID:               clonePtr(m.ClientID),
-		SecurityLifeCycle:      clonePtr(m.Lifecycle),
 		ImplID:                 cloneBytesPtr(m.ImplID),
 		BootSeed:               cloneBytesPtr(m.BootSeed),
 		CertificationReference: clonePtr(m.CertRef),
@@ -252,6 +250,8 @@ func (m *MClaims) BuildLiteral() (psatoken.IClaims, bool) {
 		VSI:                    clonePtr(m.VSI),
 		CanonicalProfile:       P2Name,
 	}
+	setIntField(c, "ClientID", m.ClientID != nil, int64(deref32(m.ClientID)))
+	setIntField(c, "SecurityLifeCycle", m.Lifecycle != nil, int64(deref16(m.Lifecycle)))
 	if m.ZeroCanon {
 		c.CanonicalProfile = ""
 	}
@@ -370,4 +370,41 @@ func (m *MClaims) applySetters(c psatoken.IClaims) error {
 		c.(*psatoken.P1Claims).Profile = nil
 	}
 	return nil
+}
+
+func deref32(p *int32) int32 {
+	if p == nil {
+		return 0
+	}
+	return *p
+}
+func deref16(p *uint16) uint16 {
+	if p == nil {
+		return 0
+	}
+	return *p
+}
+
+// setIntField sets the exported pointer-to-integer field name of *obj through
+// reflection, whatever integer width the library declares it with (so that
+// the harness still builds if a field is widened).
+func setIntField(obj any, name string, present bool, v int64) {
+	f := reflect.ValueOf(obj).Elem().FieldByName(name)
+	if !f.IsValid() || f.Kind() != reflect.Pointer {
+		panic("VERIF-INFRA: no pointer field " + name)
+	}
+	if !present {
+		f.Set(reflect.Zero(f.Type()))
+		return
+	}
+	e := reflect.New(f.Type().Elem())
+	switch e.Elem().Kind() {
+	case reflect.Int, reflect.Int8, reflect.Int16, reflect.Int32, reflect.Int64:
+		e.Elem().SetInt(v)
+	case reflect.Uint, reflect.Uint8, reflect.Uint16, reflect.Uint32, reflect.Uint64:
+		e.Elem().SetUint(uint64(v))
+	default:
+		panic("VERIF-INFRA: field " + name + " is not an integer pointer")
+	}
+	f.Set(e)
 }
